@@ -162,6 +162,8 @@ pub struct RawResult {
     pub ops: Vec<String>,
     pub imp: Vec<String>,
     pub handler: Vec<String>,
+    /// behaviour operations and handler records of the node in the order they happened (`bsdriver lvalidate` / `svalidate`)
+    pub link: Vec<String>,
     pub reader_mode: u8,
     /// the node asked for thousands of CIDs (a wantlist frame larger than a yamux window): its own trace is not
     /// replayed through the model (quadratic in size), the raw peer's view is what is checked
@@ -188,6 +190,7 @@ pub fn run_one(seed: u64) -> RawResult {
     let inner = if slow_polls > 0 { builder.register_multihasher(SlowSha { polls: slow_polls }).build() } else { builder.build() };
     let rec = Arc::new(Mutex::new(Rec::default()));
     rec.lock().unwrap().ops.push("n reset 1".into());
+    rec.lock().unwrap().link.push("B reset 1".into());
     rec.lock().unwrap().imp.push("ok".into());
     let wrap = Wrap::new(inner, store.clone(), Fmt { tables: tables.clone(), sdh: true }, Recorder { rec: rec.clone(), node: 0 });
     let mk_transport = |kp: &libp2p_identity::Keypair| {
@@ -590,18 +593,19 @@ pub fn run_one(seed: u64) -> RawResult {
             violations.push(("C14".into(), format!("the node wants {wide} CIDs and is idle, but {missing} of them never reached the raw peer in a complete wantlist frame")));
         }
     }
-    RawResult { violations, trace, ops: if wide > 0 { vec![] } else { r.ops.clone() }, imp: if wide > 0 { vec![] } else { r.imp.clone() }, handler: r.handler.clone(), reader_mode, wide: wide > 0 }
+    RawResult { violations, trace, ops: if wide > 0 { vec![] } else { r.ops.clone() }, imp: if wide > 0 { vec![] } else { r.imp.clone() }, handler: r.handler.clone(), link: if wide > 0 { vec![] } else { r.link.clone() }, reader_mode, wide: wide > 0 }
 }
 
 pub fn raw_stream(seed: u64, runs: usize, out: &str, name: &str) -> Sink {
     let mut sink = Sink::default();
     let mut net = vec![];
     let mut hlog: Vec<String> = vec![];
+    let mut llog: Vec<String> = vec![];
     for r in 0..runs {
         let run_seed = seed.wrapping_mul(7_000_003).wrapping_add(r as u64);
         let res = match std::panic::catch_unwind(|| run_one(run_seed)) {
             Ok(res) => res,
-            Err(e) => RawResult { violations: vec![("C08".into(), format!("panic with a raw peer: {}", crate::exec::panic_msg(e)))], trace: vec![format!("seed={run_seed}")], ops: vec![], imp: vec![], handler: vec![], reader_mode: 9, wide: false },
+            Err(e) => RawResult { violations: vec![("C08".into(), format!("panic with a raw peer: {}", crate::exec::panic_msg(e)))], trace: vec![format!("seed={run_seed}")], ops: vec![], imp: vec![], handler: vec![], link: vec![], reader_mode: 9, wide: false },
         };
         sink.count("simraw.runs");
         sink.count(&format!("simraw.reader-mode-{}", res.reader_mode));
@@ -610,6 +614,9 @@ pub fn raw_stream(seed: u64, runs: usize, out: &str, name: &str) -> Sink {
         }
         for h in &res.handler {
             hlog.push(format!("r={r} n=0 {h}"));
+        }
+        for l in &res.link {
+            llog.push(format!("r={r} n=0 {l}"));
         }
         let first_line = sink.ops.len();
         for (o, i) in res.ops.iter().zip(res.imp.iter()) {
@@ -626,6 +633,7 @@ pub fn raw_stream(seed: u64, runs: usize, out: &str, name: &str) -> Sink {
     std::fs::create_dir_all(out).ok();
     std::fs::write(format!("{out}/{name}.net.json"), format!("[{}]", net.join(",\n"))).expect("write net file");
     std::fs::write(format!("{out}/{name}.handler"), hlog.join("\n") + "\n").expect("write handler log");
+    std::fs::write(format!("{out}/{name}.link"), llog.join("\n") + "\n").expect("write link log");
     sink.add("sim.handler-records", hlog.len() as u64);
     sink
 }
